@@ -35,15 +35,16 @@ func senderAddr(i int) common.Address { return senderKeys[i].addr }
 
 // progEnv is what a generated program may refer to.
 type progEnv struct {
-	lower   []common.Address // contracts that may be called with all gas (index below the program's own: call graph stays a DAG)
-	all     []common.Address // all contracts (called with a small fixed gas, may recurse)
-	eoas    []common.Address // funded senders
-	fresh   []common.Address // accounts absent from genesis
-	system  bool             // system contracts present (Prague+)
-	heavy   bool             // add stack/memory heavy snippets (C28)
-	nslots  int              // shared storage slots 0..nslots-1
-	mcopy   bool             // Cancun+ opcodes allowed (MCOPY, TLOAD/TSTORE)
-	selfIdx int
+	lower     []common.Address // contracts that may be called with all gas (index below the program's own: call graph stays a DAG)
+	all       []common.Address // all contracts (called with a small fixed gas, may recurse)
+	eoas      []common.Address // funded senders
+	fresh     []common.Address // accounts absent from genesis
+	system    bool             // system contracts present (Prague+)
+	heavy     bool             // add stack/memory heavy snippets (C28)
+	nslots    int              // shared storage slots 0..nslots-1
+	mcopy     bool             // Cancun+ opcodes allowed (MCOPY, TLOAD/TSTORE)
+	selfIdx   int
+	blockhash bool // BLOCKHASH of recent ancestors allowed (generation needs a header source)
 }
 
 func (e *progEnv) anyAddr(r *simcore.Rand) common.Address {
@@ -64,7 +65,9 @@ func (e *progEnv) anyAddr(r *simcore.Rand) common.Address {
 		return common.BytesToAddress([]byte{byte(r.Range(1, 9))})
 	case 4:
 		if e.system {
-			return []common.Address{params.BeaconRootsAddress, params.HistoryStorageAddress, params.WithdrawalQueueAddress, params.ConsolidationQueueAddress}[r.Intn(4)]
+			// (the beacon roots contract is left out: core.GenerateChain applies its system call after the
+			// transactions, the block processor before them, so its storage differs mid-block by construction)
+			return []common.Address{params.HistoryStorageAddress, params.WithdrawalQueueAddress, params.ConsolidationQueueAddress}[r.Intn(3)]
 		}
 	}
 	if len(e.all) > 0 {
@@ -285,7 +288,13 @@ func genRuntime(r *simcore.Rand, e *progEnv) []byte {
 				emitSystemCall(a, r)
 			}
 		case 13: // context values
-			switch r.Intn(5) {
+			k := r.Intn(5)
+			if e.blockhash && r.Bool(0.5) {
+				k = 5
+			}
+			switch k {
+			case 5:
+				a.push(uint64(r.Range(1, 3))).op(opNUMBER, opSUB, opBLOCKHASH).acc()
 			case 0:
 				a.op(opSELFBALANCE).acc()
 			case 1:
@@ -325,8 +334,8 @@ func emitSystemCall(a *asm, r *simcore.Rand) {
 	case 1: // EIP-7251 consolidation request: 2 x 48 byte pubkeys
 		a.mstoreBytes(256, r.Bytes(96))
 		emitCall(a, opCALL, 0, params.ConsolidationQueueAddress, uint64(r.Range(0, 3)), 256, 96)
-	case 2: // EIP-4788 beacon root lookup by timestamp (TIMESTAMP of this block: written at index 0)
-		a.op(opTIMESTAMP).push(256).op(opMSTORE)
+	case 2: // EIP-4788 beacon root lookup for the previous block's timestamp (block time is 10 s in GenerateChain)
+		a.push(10).op(opTIMESTAMP, opSUB).push(256).op(opMSTORE)
 		emitCall(a, opSTATICCALL, 0, params.BeaconRootsAddress, 0, 256, 32)
 		a.push(64).op(opMLOAD).acc()
 	default: // EIP-2935 parent hash lookup (NUMBER-1: written at index 0)
@@ -367,7 +376,7 @@ func emitHeavy(a *asm, r *simcore.Rand, e *progEnv) {
 		a.push(off + uint64(r.Range(1, 64))).op(opMLOAD).push(32).op(opMSTORE)
 	case 2: // sparse big store then read around it
 		off := uint64(r.Range(200, 40000))
-		a.push(r.Uint64()|1).push(off).op(opMSTORE)
+		a.push(r.Uint64() | 1).push(off).op(opMSTORE)
 		a.push(off - uint64(r.Range(1, 31))).op(opMLOAD).acc()
 		a.push(off + uint64(r.Range(1, 31))).op(opMLOAD).acc()
 	case 3: // MCOPY overlapping
